@@ -94,6 +94,14 @@ def _addpack(keys, z, noholes, twice, streamed=False, do_fsync=True):
     return op
 
 
+def _chain_then_pack(keys, perpack):
+    """A direct add whose index rows stay uncommitted (the public do_commit=False), then pack_all_loose on the same handle."""
+    def op(cont, contents):
+        cont.add_objects_to_pack([contents[k] for k in keys], compress=False, do_commit=False)
+        cont.pack_all_loose(clean_loose_per_pack=perpack)
+    return op
+
+
 def _delete(keys):
     def op(cont, contents):
         return cont.delete_objects([hashlib.sha256(contents[k]).hexdigest() for k in keys])
@@ -157,6 +165,15 @@ def all_scenarios(thorough=False):
             s.append(Scenario(f'addpack:nh{int(noholes)}-tw{int(twice)}-z{int(z)}', pre_pack,
                               _addpack(['k5', 'k1', 'k6', 'k5', 'k3', 'k7'], z, noholes, twice), adds=['k5', 'k6', 'k7', 'k1', 'k3'],
                               target=250))
+    # batches whose last object appends nothing (known key with no_holes / the empty object): the earlier, new objects of the
+    # batch must be durable all the same
+    s.append(Scenario('addpack:nh1-known-last', pre_pack, _addpack(['k5', 'k6', 'k1'], False, True, True), adds=['k5', 'k6', 'k1']))
+    s.append(Scenario('addpack:nh1-tw0-repeat-last', pre_pack, _addpack(['k5', 'k6', 'k5'], False, True, False), adds=['k5', 'k6']))
+    s.append(Scenario('addpack:empty-last', pre_pack, _addpack(['k5', 'k6', 'k4'], False, False, True), adds=['k5', 'k6', 'k4']))
+    # rows left uncommitted by a direct add (do_commit=False), then packing with per-pack cleaning through the same handle
+    for perpack in (True, False):
+        s.append(Scenario(f'chain-then-pack:perpack{int(perpack)}', [('k1', 'loose'), ('k2', 'loose'), ('k3', 'packed'), ('k6', 'loose')],
+                          _chain_then_pack(['k1', 'k7'], perpack), adds=['k7', 'k1']))
     s.append(Scenario('addpack:streamed-big', pre_pack, _addpack(['kb', 'k7'], False, False, True, streamed=True),
                       adds=['kb', 'k7']))
     src_forms = [('k5', 'loose'), ('k6', 'packed'), ('k8', 'packedz'), ('k1', 'packed'), ('k7', 'loose')]
